@@ -3,6 +3,8 @@
 package boltz
 
 import (
+	"time"
+
 	"github.com/openziti/storage/ast"
 	"github.com/openziti/storage/verifrt"
 )
@@ -20,6 +22,7 @@ type vRow struct {
 	F  *float64
 	B  *bool
 	M  bool // match bit
+	T  *time.Time
 }
 
 func (e *vRow) GetId() string         { return e.Id }
@@ -35,6 +38,7 @@ func (vRowStrategy) FillEntity(e *vRow, b *TypedBucket) {
 	e.F = b.GetFloat64("f")
 	e.B = b.GetBool("b")
 	e.M = b.GetBoolWithDefault("m", false)
+	e.T = b.GetTime("t")
 }
 func (vRowStrategy) PersistEntity(e *vRow, ctx *PersistContext) {
 	ctx.SetStringP("s", e.S)
@@ -48,6 +52,9 @@ func (vRowStrategy) PersistEntity(e *vRow, ctx *PersistContext) {
 		ctx.SetBool("b", *e.B)
 	}
 	ctx.SetBool("m", e.M)
+	if e.T != nil {
+		ctx.SetTimeP("t", e.T)
+	}
 }
 
 type vRowStore struct {
@@ -69,6 +76,7 @@ func verifNewRowStore() *vRowStore {
 	s.AddSymbol("f", ast.NodeTypeFloat64)
 	s.AddSymbol("b", ast.NodeTypeBool)
 	s.AddSymbol("m", ast.NodeTypeBool)
+	s.AddSymbol("t", ast.NodeTypeDatetime)
 	return s
 }
 
